@@ -299,7 +299,15 @@ func certChainFor(kind string, idx int) []*x509.Certificate {
 	if v, ok := chainCache.Load(id); ok {
 		return v.([]*x509.Certificate)
 	}
-	c := keys.SelfSigned(keys.Get(kind, idx), "key "+id)
+	// keys with an odd index get a two-certificate chain [leaf, issuing CA] (the CA is another
+	// static key), the others a single self-signed certificate, so that both X5CHAIN shapes
+	// occur wherever chains are used (the key of a chain is its FIRST certificate's)
+	var c []*x509.Certificate
+	if idx == 1 || idx == 3 || idx == 5 { // owner 1, stranger, second device; not the device CA (#7)
+		c = keys.Chain(keys.Get(kind, idx).Public(), "key "+id, keys.Get(kind, (idx+3)%6))
+	} else {
+		c = keys.SelfSigned(keys.Get(kind, idx), "key "+id)
+	}
 	chainCache.Store(id, c)
 	return c
 }
